@@ -279,6 +279,20 @@ class Engine(EngineBase):
                            if rj["doc"][0] == "ok" else None),))
         return sorted(out, key=repr)
 
+    @quiet
+    def _sp_files(self, pp):
+        """Raw bytes of every state point file (or None) by directory name."""
+        out = {}
+        ws = os.path.join(pp, "workspace")
+        for name in sorted(O.listdir(ws)):
+            f = os.path.join(ws, name, SP_FILE)
+            try:
+                with O.io_open(f, "rb") as fh:
+                    out[name] = fh.read()
+            except OSError:
+                out[name] = None
+        return out
+
     def _one(self, sc, world, res, signac, pp, sps, ids, cached, dset):
         from signac.errors import JobsCorruptedError
 
@@ -319,12 +333,23 @@ class Engine(EngineBase):
                                f"{sorted(damaged)}", "C09:check:wrong-job-set")
         # (2) opening a damaged job by id never yields a wrong state point
         proj = signac.Project(pp)
+        self._data_files_pre = self._data_files(pp)
+        sp_before = self._sp_files(pp)
         opened = {}
         for n in sorted(damaged):
-            for route in ("statepoint", "cached_statepoint"):
+            for route in ("statepoint", "cached_statepoint", "statepoint-again"):
+                # "-again": the same handle is asked a second time after its first answer (a refusal must
+                # not leave an unvalidated state point behind in the handle)
                 try:
                     job = proj.open_job(id=n)
-                    v = job.statepoint() if route == "statepoint" else dict(job.cached_statepoint)
+                    if route == "statepoint-again":
+                        try:
+                            job.statepoint()
+                        except Exception:  # noqa: BLE001
+                            pass
+                        v = job.sp()
+                    else:
+                        v = job.statepoint() if route == "statepoint" else dict(job.cached_statepoint)
                 except Exception as e:  # noqa: BLE001 - raising is an allowed outcome
                     opened[(n, route)] = type(e).__name__
                     continue
@@ -337,6 +362,9 @@ class Engine(EngineBase):
                     raise Mismatch(P, "C09:open:accepted-wrong-statepoint",
                                    f"{label}: open_job(id={n[:8]}).{route} returned {str(v)[:100]} whose id is "
                                    f"not {n[:8]}", f"C09:open:{route}:accepted-wrong-statepoint")
+        if self._data_files(pp) != self._data_files_pre or self._sp_files(pp) != sp_before:
+            raise Mismatch(P, "C09:open:changed-disk",
+                           f"{label}: merely opening the damaged jobs by id changed files in the workspace")
         # (3) repair() under the permuted listing order
         recoverable = set()
         expect_name = {}
